@@ -194,6 +194,22 @@ func (vc *FnVC) Run() {
 	for _, fv := range fn.FreeVars {
 		vc.val(st, fv)
 	}
+	// lemmas: closed formulas, proved before anything is assumed about this call
+	if vc.unit != nil {
+		env := vc.envAt(st, nil)
+		for i, l := range vc.unit.Lemmas {
+			t, err := vc.evalBool(env, l.E)
+			if err != nil {
+				vc.contractError("lemma %s: %v", l.Text, err)
+				continue
+			}
+			lbl := l.Name
+			if lbl == "" {
+				lbl = fmt.Sprintf("lemma%d", i+1)
+			}
+			vc.oblige(st, "lemma", lbl, t, "lemma: "+l.Text)
+		}
+	}
 	// requires
 	if vc.unit != nil {
 		env := vc.envAt(st, nil)
@@ -682,7 +698,7 @@ func (vc *FnVC) checkAts(st *State, in ssa.Instruction) {
 		}
 		t, err := vc.evalBool(env, a.C.E)
 		if err != nil {
-			vc.contractError("at %q: %v", a.Text, err)
+			vc.contractError("at %q (instruction %s): %v", a.Text, in, err)
 			continue
 		}
 		lbl := a.C.Name
